@@ -65,31 +65,23 @@ func (f *globalMaxInflight) add(n int32) int32 {
 }
 
 func (f *globalMaxInflight) SetState(instance string, requestId int64, current int32) (bool, int32, error) {
-	f.lock.RLock()
+	// the instance state and the global count are updated together, so
+	// reports and removals of instances are serialized by the write lock
+	f.lock.Lock()
+	defer f.lock.Unlock()
+
 	state, ok := f.instanceStates[instance]
-	f.lock.RUnlock()
 
 	if current < 0 {
-		if ok {
-			f.lock.Lock()
+		if ok && state != nil {
 			delete(f.instanceStates, instance)
-			f.add(-state.count)
-			f.lock.Unlock()
-			current = 0
+			f.add(-atomic.LoadInt32(&state.count))
 		}
 		return false, -1, nil
 	} else if !ok || state == nil {
-		f.lock.Lock()
-		state, ok = f.instanceStates[instance]
-		if !ok || state == nil {
-			state = &instanceState{}
-			f.instanceStates[instance] = state
-		}
-		f.lock.Unlock()
+		state = &instanceState{}
+		f.instanceStates[instance] = state
 	}
-
-	f.lock.RLock()
-	defer f.lock.RUnlock()
 
 	if requestId > 0 {
 		oldId := atomic.LoadInt64(&state.requestId)
@@ -103,12 +95,14 @@ func (f *globalMaxInflight) SetState(instance string, requestId int64, current i
 	delta := current - old
 	overflowed := f.add(delta)
 
-	if overflowed > 0 {
+	// only growth is rolled back, a decrease is always applied even if
+	// the count still exceeds a lowered limit
+	if overflowed > 0 && delta > 0 {
 		atomic.AddInt32(&state.count, -delta)
 		f.add(-delta)
 		return false, old, nil
 	}
-	if overflowed == 0 && current > 0 {
+	if overflowed >= 0 && current > 0 {
 		return false, current, nil
 	}
 	return true, current, nil
